@@ -82,6 +82,30 @@ theorem transfer_correct_full_if_libs_compared (cfg : Cfg M) (hex : cfg.exclLibs
       | truncate k t => trivial
   exact (history_spec hlaw hist w h0 (hany hist w hadm)).1
 
+/-- `mtime_check = False` only switches off the scan of the source folders: as long as no
+    source was edited after the cache was written, every call — whatever the version and the
+    options have become — still returns the compile of the current sources under the current
+    version and options (seed C20-6: the version test guarded by `mtime_check`). -/
+theorem version_and_options_checked_without_mtime_check (cfg : Cfg M) (L : List Folder)
+    (hlaw : Lawful cfg) (w : World M) (h0 : FreshInv cfg L w) (o : Opts) (now size : Nat)
+    (hl : cfg.exclLibs = true → o.libs = L)
+    (hquiet : ∀ c, w.cache = some c → ∀ f ∈ folders o.norm, stale c (w.fs f) = false) :
+    (transfer cfg w o now size).2.model? = some (compileNow cfg w o.norm) := by
+  unfold transfer
+  simp only
+  split
+  · rfl
+  · split
+    · rename_i m hload
+      simp only [Outcome.model?]
+      rw [hit_correct_no_scan h0 (by simpa using hl) hquiet hload]
+    · rename_i e hload
+      obtain ⟨n, hn⟩ := load_raised hload
+      have := hlaw n
+      rw [hn] at this
+      cases this
+    · rfl
+
 /-- Modification times are compared with the cache file's only — there is no wall clock in
     `load_model`: a source file newer than the cache, by any amount and however far in the
     future, is never served from the cache (seed C20-3: an upper bound `<= time.time()`). -/
@@ -153,6 +177,10 @@ example : (run (exCfg true) exW exHist).2.map Outcome.kind =
 def exFuture : World Src :=
   ⟨fun _ => [⟨"M.mo", 2200000000000, 1⟩], some ⟨5, ⟨1, exOpts [] "False", (1, [], exOpts [] "False")⟩, 10, 10⟩, 1⟩
 example : (match load (exCfg true) exFuture (exOpts [] "False") with | .miss r => r.name | _ => "") = "out-of-date" := by decide
+-- mtime_check off, version changed since the cache was written: recompiled because of the version
+example : ((transfer (exCfg true) (run (exCfg true) exW
+    [.write 0 "M.mo" 1 1, .transfer { exOpts [] "False" with mtimeCheck := false } 5 100, .setVersion 2]).1
+    { exOpts [] "False" with mtimeCheck := false } 9 100).2).kind = "compiled:version" := by decide
 end examples
 
 /-- The hypothesis on `library_folders` cannot be dropped for the code as it is
